@@ -81,6 +81,13 @@ type model struct {
 	listsSinceOpen    int    // list ops on the current document object since it was opened
 	startNS           string // namespace scheme of the numbering/notes parts of the package the history started from
 
+	// the package the current document object was opened from defines no style at all (no styles part, an empty one, or one without w:style)
+	noStylesAtOpen bool
+	tocOps         int  // TOC ops executed on the current document object (or its render base)
+	rejectPending  bool // a call was rejected (error result) or given a blank/nil/unknown argument since the last judged save
+	rejectJudged   bool // ... and a save after it was judged
+	styledNoStyles bool // styled content was added to a document opened from a package without style definitions
+
 	lists, fns, ens   int
 	listAfterOpen     bool
 	noteAfterOpen     bool
@@ -115,6 +122,17 @@ func (m *model) newDoc() {
 	m.rendered, m.renderOfSaved, m.lastSaveStyles = false, false, nil
 	m.lateRendered, m.renderLost = map[string]bool{}, map[string]bool{}
 	m.listsSinceOpen, m.startNS = 0, ""
+	m.noStylesAtOpen, m.tocOps = false, 0
+}
+
+// observedSave: o is the harness's reading of a package just saved from the current document object. What that
+// package refers to is exactly what the body uses at this moment: a style no part of it refers to is unused
+// until a later op gives it to something (the ops mark what they may emit).
+func (m *model) observedSave(o *obs) {
+	m.used = map[string]bool{}
+	for _, r := range o.Refs {
+		m.used[r.Val] = true
+	}
 }
 
 // renderedFrom: the document object is replaced by the result of rendering it as a template base document
@@ -159,6 +177,7 @@ func (m *model) openedFrom(o *obs, fresh bool) {
 	m.removed = map[string]bool{} // the registry of an opened document is the predefined set again
 	m.reg = map[string]string{}
 	m.preStyles = map[string]bool{}
+	m.noStylesAtOpen = o != nil && len(o.Styles) == 0
 	if o != nil {
 		m.base = map[string]string{}
 		for id, d := range o.Styles {
